@@ -300,7 +300,7 @@ class WorkflowFunctions(Unit):
         "C01.make_task_context.actuals": {"props": ["C01", "C06", "C16"], "text":
             "the context for conditions and publishes is the task's inbound context plus __current_task = {id, route, result} and __state = the serialised workflow state; the stored contexts are not touched"},
         "C16.render.item_exact": {"props": ["C16", "C12"], "text":
-            "with the named form `x in <expr>` every item - whatever JSON value it is, a JSON object included - is bound unchanged to x; with `x, y in <expr>` list items are unpacked positionally"},
+            "with the named form `x in <expr>` every item - whatever JSON value it is, a JSON object or a list included - is bound unchanged to x; with `x, y in <expr>` list items are unpacked positionally"},
         "C12.render.item_ids": {"props": ["C12"], "text":
             "TaskSpec.render yields one action per item with item_id = position (0..n-1) in item order, none for an empty list, and rejects a non-list"},
     }
@@ -362,7 +362,7 @@ class WorkflowFunctions(Unit):
                         and [s_[1] for s_ in seen if s_[0] == "core.echo"] == list(items)
                 ctx.oblige("C12.render.item_ids", ok, None, {"items": repr(items)})
             for items, form, want in (
-                    ([{"name": "vm1", "region": "eu"}, "s", 3, None, ["l"]], "x in <% ctx(xs) %>", None),
+                    ([{"name": "vm1", "region": "eu"}, "s", 3, None, ["l"], [[5, 6], 7], []], "x in <% ctx(xs) %>", None),
                     ([["a", 1], ["b", 2]], "k, v in <% ctx(xs) %>", [{"k": "a", "v": 1}, {"k": "b", "v": 2}])):
                 spec = models.TaskSpec({"action": "core.echo", "input": {"m": "<% item() %>"}, "with": {"items": form}})
                 seen = []
@@ -380,7 +380,9 @@ class WorkflowFunctions(Unit):
                 except Raised as rr:
                     raised = rr
                 if want is None:
-                    want = [{"x": it} if not isinstance(it, (list, tuple)) else dict(zip(["x"], it)) for it in items]
+                    # one name: the whole item is bound to it, a list-valued item included (it is not
+                    # destructured: that is what several names are for)
+                    want = [{"x": it} for it in items]
                 ctx.oblige("C16.render.item_exact", raised is None and seen == want, None, {"form": form, "items": repr(items), "got": repr(seen)})
             ctx.canary()
 
